@@ -98,7 +98,7 @@ class Prop:
     min_evaluations = {"quick": 1, "thorough": 1}
     exhaustive = {"quick": False, "thorough": False}
     # soft wall-clock budget per worker (s); generation stops after it (truncated run)
-    budget_s = {"quick": 60, "thorough": 900}
+    budget_s = {"quick": 300, "thorough": 900}
     nshards = {"quick": 16, "thorough": 16}
 
     def worker_pyflags(self, shard: int, nshards: int = 1) -> List[str]:
